@@ -77,6 +77,15 @@ CLAIMS = {
         note='Not decided: the parse of the actual byte stream. Known findings D8 (validation after write, 7 keys) are listed in known_findings.json. Assumes IoRef::encode '
              'calls Encoder::encodev of the given codec and has no rollback.',
         ref='DESIGN.md section 5 C08'),
+    'C17': dict(
+        technique='MIR region / avoidance-path rules on the alias map + origin tracing of the enforced maximum (static analysis)',
+        text='In both v5 dispatchers: the alias lookup is on the empty-topic edge with the publish alias as key; the bound edge writes the stored topic into the packet before '
+             'the handler message is built, the unbound edge ends in violation(TopicAliasInvalid) and reaches no handler; from the topic+alias edge the handler message is '
+             'unreachable without a store into the map unless the stored topic compared equal (avoidance-path query); a new binding is dominated by alias <= maximum and the '
+             'maximum originates from the negotiated value; alias maps are constructed empty per dispatcher / per router session, no statics, no Rc sharing; the router matches '
+             'non-empty topics with recognize(topic) and uses its cache only for empty topics.',
+        note='Not decided: rebinding sequences as such. Known finding D12 (client enforces literal 16) is listed in known_findings.json.',
+        ref='DESIGN.md section 5 C17'),
 }
 
 NA_REASONS = {}
